@@ -30,6 +30,7 @@ MODULES = [
     ("Facts", "gen_facts"),
     ("Schema", "gen_schema"),
     ("DeclPin", "gen_declpin"),
+    ("TopLoop", "gen_toploop"),
     ("PinsC01", "gen_pins_c01"),
     ("PinsC02", "gen_pins_c02"),
     ("PinsC03", "gen_pins_c03"),
